@@ -118,6 +118,7 @@ def work(job):
                 if exp and u != v and q not in (u, v):
                     p.nontrivial(("tween2", q, u, v))
                 p.outcome("tween2:%s" % exp)
+        tag_job(p, job)
         return p
 
     _, k, n, i0, i1 = job
@@ -181,6 +182,7 @@ def work(job):
         p.notes["simple polygons, %d vertices on %dx%d" % (k, n, n)] += 1
         if p.notes["simple polygons, %d vertices on %dx%d" % (k, n, n)] == 7:
             p.sample(dict(polygon=vs, classes={"%d,%d" % q: classify(q, poly, far) for q in pts if 0 <= q[0] < n and 0 <= q[1] < n}), limit=2)
+    tag_job(p, job)
     return p
 
 
@@ -190,7 +192,37 @@ def families():
     return [(3, 4), (3, 5), (4, 4), (5, 3), (6, 3), (4, 5), (5, 4)]
 
 
+def tag_job(p, job, start=0):
+    """Put the shard identity into the replay record of every violation found from index `start` on."""
+    for v in p.violations[start:]:
+        if isinstance(v[3], dict):
+            v[3].setdefault("job", repr(job))
+
+
+def replay(path, runner, pid):
+    """./vcheck C44 --replay <file>: re-run the shard that produced the stored violation; exit 1 if the same key fails again."""
+    import json
+    rec = json.load(open(path))
+    if not isinstance(rec.get("replay"), dict) or "job" not in rec["replay"]:
+        print("replay record carries no shard identity; run the check again to regenerate it")
+        return 2
+    job = eval(rec["replay"]["job"], {"__builtins__": {}, "inf": float("inf"), "nan": float("nan")})
+    p = runner(job)
+    hit = False
+    for g, ex, what, rep in p.violations:
+        same = "%s|%s" % (g, ex) == rec["key"]
+        hit = hit or same
+        print("%s %s|%s\n  %s" % ("REPRODUCED" if same else "other violation in the same shard:", g, ex, what))
+    if not hit:
+        print("not reproduced: %s" % rec["key"])
+    print("REPLAY property=%s reproduced=%s shard_evaluations=%d" % (pid, hit, p.evaluations))
+    return 1 if hit else 0
+
+
 def run():
+    import os
+    if os.environ.get("VERIF_REPLAY"):
+        return replay(os.environ["VERIF_REPLAY"], work, "C44")
     # reference self-check: unit square and an L shape
     sq = ((0, 0), (2, 0), (2, 2), (0, 2))
     ell = ((0, 0), (3, 0), (3, 1), (1, 1), (1, 3), (0, 3))
